@@ -46,6 +46,8 @@ OV_MCREW = dict(name="mcrew", files={
     "_overlay/mcrew/zz_verif_c16_test.go": "cmd/mcrew/zz_verif_c16_test.go",
     "_overlay/mcrew/zz_verif_c17_test.go": "cmd/mcrew/zz_verif_c17_test.go",
     "_overlay/mcrew/zz_verif_c14_test.go": "cmd/mcrew/zz_verif_c14_test.go",
+    "_overlay/mcrew/zz_verif_c13_test.go": "cmd/mcrew/zz_verif_c13_test.go",
+    "_overlay/mcrew/zz_verif_c09_test.go": "cmd/mcrew/zz_verif_c09_test.go",
     "_overlay/mcrew/zz_verif_util_test.go": "cmd/mcrew/zz_verif_util_test.go",
 })
 
@@ -67,12 +69,19 @@ reg("C06", "./checks/core", "^TestC06", assumptions=A_CORE[2:] + ["native action
 reg("C07", "./checks/core", "^TestC07", crash_is_violation=True, fuzz=[("./checks/core", "FuzzC07Total", 120)], assumptions=["a nil *State and Execution literals with nil Events are API misuse, not generated", "panics inside the third-party YAML parser on byte-level garbage are not searched for"])
 reg("C08", "./checks/core", "^TestC08", assumptions=A_CORE[2:] + ["the action model (lib/sm/actlang.go) says which emissions a completed action makes", "after a walk's deadline has passed a later action may complete or be cut short (both accepted)"])
 reg("C09", None, None)
-CHECKS["C09"]["parts"] = ["C09core", "C09sio"]
+CHECKS["C09"]["parts"] = ["C09core", "C09sio", "C09mcrew"]
 reg("C09core", "./checks/core", "^TestC09", assumptions=["specifications are deterministic by construction", "the state is serialised with core.State's own JSON tags, as sio and mcrew do"])
 CHECKS["C09core"]["subchecks"] = ["plaindata"]
 reg("C09sio", "./checks/sio", "^TestC09", shards=(4, 16), assumptions=["the host-level form of the property: a host (sio.Stdio, as sio/siostd uses it) that is stopped and restarted at message boundaries - also without having seen a message - ends like a host that was never stopped"])
 CHECKS["C09sio"]["subchecks"] = ["stdio"]
-reg("C13", "./checks/core", "^TestC13", fuzz=[("./checks/core", "FuzzC13Repr", 90)], assumptions=["strings in YAML renderings are produced by the YAML library's own marshaller", "native actions cannot be represented as text and are not generated here"])
+reg("C09mcrew", "./cmd/mcrew", "^TestC09", overlay=OV_MCREW, shards=(4, 16), assumptions=["mcrew's store: the reloaded service is populated with Storage.GetCrew + AsMachines, as cmd/mcrew does at start-up"])
+CHECKS["C09mcrew"]["subchecks"] = ["mcrew"]
+reg("C13", None, None)
+CHECKS["C13"]["parts"] = ["C13core", "C13mcrew"]
+reg("C13core", "./checks/core", "^TestC13", fuzz=[("./checks/core", "FuzzC13Repr", 90)], assumptions=["strings in YAML renderings are produced by the YAML library's own marshaller", "native actions cannot be represented as text and are not generated here"])
+CHECKS["C13core"]["subchecks"] = ["repr"]
+reg("C13mcrew", "./cmd/mcrew", "^TestC13", overlay=OV_MCREW, shards=(4, 16), assumptions=["mcrew's Service.GetSpec is called on a Service value that has only its spec directory and interpreters set"])
+CHECKS["C13mcrew"]["subchecks"] = ["mcrew"]
 reg("C18", "./checks/core", "^TestC18", fuzz=[("./checks/core", "FuzzC18Permanent", 45)], assumptions=A_CORE + ["an action that returns null gets empty bindings; whether permanent bindings survive that is not judged"])
 
 A_ES = ["schedules are sampled by the Go scheduler under the race detector; a green run is 'no counterexample in the sampled schedules'"]
